@@ -679,8 +679,32 @@ def untype_locals(tree: ast.AST) -> int:
     return count
 
 
+def keyword_dicts(tree: ast.AST) -> int:
+    """``d.update(a=1, b=2)`` and ``dict(a=1, b=2)`` are ``d.update({"a": 1, "b": 2})`` / ``{"a": 1, "b": 2}`` for every rule."""
+    count = 0
+
+    class Tr(ast.NodeTransformer):
+        def visit_Call(self, node: ast.Call):
+            nonlocal count
+            self.generic_visit(node)
+            if node.keywords and not node.args and all(k.arg is not None for k in node.keywords):
+                d = ast.Dict(keys=[ast.Constant(k.arg) for k in node.keywords], values=[k.value for k in node.keywords])
+                if isinstance(node.func, ast.Attribute) and node.func.attr == "update":
+                    count += 1
+                    return ast.copy_location(ast.Call(func=node.func, args=[ast.copy_location(d, node)], keywords=[]), node)
+                if isinstance(node.func, ast.Name) and node.func.id == "dict":
+                    count += 1
+                    return ast.copy_location(d, node)
+            return node
+
+    Tr().visit(tree)
+    ast.fix_missing_locations(tree)
+    return count
+
+
 def normalize_module(rel: str, tree: ast.Module) -> dict:
     untype_locals(tree)
+    keyword_dicts(tree)
     baseline = load_baseline()
     if not baseline or rel not in baseline:
         return {"inlined": 0, "propagated": 0}
